@@ -51,6 +51,9 @@ var wzAliases = [...]*Basic{
 	{Float32, IsFloat, token.K_单精},
 	{Float64, IsFloat, token.K_双精},
 
+	{Complex64, IsComplex, token.K_单复},
+	{Complex128, IsComplex, token.K_双复},
+
 	{String, IsString, token.K_字串},
 
 	{Uintptr, IsInteger | IsUnsigned, token.K_地址型},
